@@ -14,6 +14,9 @@ import (
 	"time"
 )
 
+// sweepWanted: set by checks of the frame properties (C01, C11) so that the sweep runs although contracts are filtered
+var sweepWanted bool
+
 var loadPatterns = []string{".", "./internal/...", "./config/...", "./filter", "./function", "./aggregation", "./types", "./qerrors"}
 
 func usage() {
@@ -122,6 +125,9 @@ func generateAll(repo string, want func(c *FuncContract) bool) (*genResult, erro
 	}
 	// lemmas and tables
 	lo, ldrift := generateLemmas(P)
+	if want == nil || sweepWanted {
+		lo = append(lo, sweepObligations(P)...)
+	}
 	gr.lemmas = lo
 	gr.drift = append(gr.drift, ldrift...)
 	return gr, nil
@@ -275,6 +281,7 @@ func cmdVerify(args []string) int {
 		return 2
 	}
 	defer cleanupWorkDir()
+	sweepWanted = *filter == ""
 	gr, err := generateAll(*repo, func(c *FuncContract) bool { return strings.Contains(c.Key(), *filter) })
 	if err != nil {
 		fmt.Fprintln(os.Stderr, err)
